@@ -24,6 +24,8 @@ def run(ctx, sess):
     ctx.rule('C11.5', 'the index entry recorded for an annotation carries its timestamp and the offset of its chunk')
     ctx.rule('C11.7', 'sample-id frames: the signal\'s sample_id_offset is applied exactly once to each value (added to an api id, subtracted from a file id) and no compare mixes an api-relative id with a file id (forward dataflow over every reader function that mentions the offset)')
     ctx.rule('C11.8', 'nothing indexed is dropped: the time-series commit returns without writing its INDEX only when the index holds no entry (or its buffers do not exist)')
+    ctx.rule('C11.9', '"including all that share the same timestamp": the index-entry selection of jls_core_ts_seek either probes the entries in index order, or (any other search order, e.g. bisection) never leaves the search on an entry that is only known to equal the requested timestamp (the orderings <, =, > of the probed entry are tracked along the selection loop)')
+    ctx.rule('C11.10', '"negative/offset ids": no annotation is refused because of the value of its timestamp: in jls_wr_annotation, jls_wr_ts_anno, jls_twr_annotation and the helpers they hand the timestamp to, no error return is control dependent on a condition over the timestamp - except an order check against the previous timestamp whose remembered value starts at INT64_MIN')
     ctx.rule('C11.6', 'INDEX is immediately followed by its SUMMARY in the time-series writer')
     w = P.fn('jls_wr_annotation')
     r = P.fn('jls_core_annotations')
@@ -153,6 +155,8 @@ def run(ctx, sess):
     from .frames import frames_rule
     frames_rule(ctx, P, 'C11.7')
     pending_index_rule(ctx, P, 'C11.8', ('src/wr_ts.c',))
+    seek_first_equal_rule(ctx, P, 'C11.9')
+    no_timestamp_rejection_rule(ctx, P, 'C11.10')
 
 
 def pending_index_rule(ctx, P, rule, files):
@@ -220,3 +224,208 @@ def pending_index_rule(ctx, P, rule, files):
                'a success return leaves index entries unwritten (they are the only reference to chunks of the level below): those chunks cannot be reached by a reader',
                w.render() if w else None)
     ctx.floor('index+summary writers', n, 1)
+
+
+def seek_first_equal_rule(ctx, P, rule):
+    """the index-entry selection of jls_core_ts_seek lands on the first of a run of equal timestamps"""
+    fn = P.fn('jls_core_ts_seek')
+    ctx.saw(fn)
+    target = fn.params[4]['name'] if len(fn.params) > 4 else 'timestamp'
+    if not any(p['name'] == 'timestamp' for p in fn.params):
+        raise AnalysisBroken('jls_core_ts_seek: no timestamp parameter')
+    target = 'timestamp'
+
+    def probe_of(e):
+        """index expression X when e is entries[X].timestamp (directly or through a single-definition local)"""
+        e = strip_casts(e)
+        if e.get('op') == 'member' and e.get('field') == 'timestamp':
+            for nd in walk(e['k'][0]):
+                if nd.get('op') == 'sub' and any(m.get('op') == 'member' and m.get('field') == 'entries' for m in walk(nd['k'][0])):
+                    return strip_casts(nd['k'][1])
+        if e.get('op') == 'ref' and e.get('rk') == 'local':
+            defs = [d for d in fn.events() if (d.k == 'decl' and d.name == e['name'] and d.e is not None) or
+                    (d.k == 'store' and strip_casts(d.store_parts()[0]).get('name') == e['name'])]
+            if len(defs) == 1:
+                rhs = defs[0].e if defs[0].k == 'decl' else defs[0].store_parts()[1]
+                if rhs is not None:
+                    return probe_of(rhs)
+        return None
+
+    # compare blocks: probe value against the requested timestamp; the orderings each edge admits
+    cmps = {}
+    for b in fn.blocks.values():
+        c = strip_casts(b.cond) if b.cond is not None else None
+        if c is None or c.get('op') != 'bin' or c['o'] not in ('<', '<=', '>', '>=', '==', '!='):
+            continue
+        l, r = c['k']
+        for x, y, flip in ((l, r, False), (r, l, True)):
+            px = probe_of(x)
+            if px is None or strip_casts(y).get('name') != target:
+                continue
+            o = c['o']
+            if flip:
+                o = {'<': '>', '>': '<', '<=': '>=', '>=': '<=', '==': '==', '!=': '!='}[o]
+            t = {'<': {'<'}, '<=': {'<', '='}, '>': {'>'}, '>=': {'>', '='}, '==': {'='}, '!=': {'<', '>'}}[o]
+            cmps[b.id] = (t, {'<', '=', '>'} - t, px)
+    if not cmps:
+        raise AnalysisBroken('jls_core_ts_seek: no compare of an index entry timestamp with the requested timestamp')
+    # the loop around the compares
+    def reach(src):
+        seen, work = set(), [src]
+        while work:
+            x = work.pop()
+            for s, _ in x.succs:
+                if s.id not in seen:
+                    seen.add(s.id)
+                    work.append(s)
+        return seen
+    reads = {c.block.id for c in fn.calls('jls_core_rd_chunk')}
+
+    def reach_avoiding(src, avoid):
+        seen, work = set(), [src]
+        while work:
+            x = work.pop()
+            for s, _ in x.succs:
+                if s.id not in seen and s.id not in avoid:
+                    seen.add(s.id)
+                    work.append(s)
+        return seen
+    # the selection loop: the cycle through a compare that does not pass the read of the next index chunk
+    sel, first = set(), None
+    for cb in sorted(cmps):
+        fwd2 = reach_avoiding(fn.blocks[cb], reads)
+        if cb in fwd2:
+            sel |= {bid for bid in fwd2 if cb in reach_avoiding(fn.blocks[bid], reads)}
+            first = first or fn.blocks[cb]
+    if first is None:
+        raise AnalysisBroken('jls_core_ts_seek: the timestamp compares are not inside a selection loop')
+    import os
+    if os.environ.get('JLS_C11_DEBUG'):
+        print('sel', sorted(sel), 'cmps', sorted(cmps), 'first', first.id)
+    idx_vars = set()
+    for cb, (_, _, px) in cmps.items():
+        if cb not in sel:
+            continue
+        for nd in walk(px):
+            if nd.get('op') == 'ref' and nd.get('rk') in ('local', 'param'):
+                idx_vars.add(nd['name'])
+    # kind of probing: unit-stride scan or something else (bisection)
+    steps = []
+    for bid in sel:
+        for ev in fn.blocks[bid].events:
+            if ev.k == 'store' and strip_casts(ev.store_parts()[0]).get('name') in idx_vars:
+                steps.append(ev)
+    scan = bool(steps) and all(ev.store_parts()[2] in ('pre++', 'post++') or
+                               # an adjustment on the way out of the loop
+                               not (set(s.id for s, _ in ev.block.succs) & sel and first.id in reach_avoiding(ev.block, reads))
+                               for ev in steps) and any(ev.store_parts()[2] in ('pre++', 'post++') for ev in steps)
+    if scan:
+        ctx.ob(rule, True, fn.name, 'selection among equal timestamps', fn.blocks[first.id].where() if hasattr(fn.blocks[first.id], 'where') else fn.where(),
+               'entries are probed in index order (%s advances by one): the first entry of a run of equal timestamps is the one found' % sorted(idx_vars)[0])
+        return
+    # not a scan: walk the selection loop with the set of orderings still possible for the entry just probed;
+    # leaving the loop while only `equal` is possible means the search stopped on an arbitrary member of a run.
+    bad = None
+    seen = set()
+    work = [(bid, frozenset('<=>'), (bid,)) for bid in sorted(sel)]
+    while work and bad is None:
+        bid, st, trail = work.pop()
+        if (bid, st) in seen:
+            continue
+        seen.add((bid, st))
+        b = fn.blocks[bid]
+        for s, label in b.succs:
+            st2 = st
+            if bid in cmps and label in ('T', 'F'):
+                st2 = frozenset(st & (cmps[bid][0] if label == 'T' else cmps[bid][1]))
+                if not st2:
+                    continue
+            if s.id not in sel:
+                if st2 == frozenset('='):
+                    bad = trail + (s.id,)
+                    break
+                continue
+            if any(ev.k in ('store', 'decl') and (ev.name if ev.k == 'decl' else strip_casts(ev.store_parts()[0]).get('name')) in idx_vars for ev in s.events):
+                # a new probe index: nothing is known about the next entry
+                work.append((s.id, frozenset('<=>'), trail + (s.id,)))
+            else:
+                work.append((s.id, st2, trail + (s.id,)))
+    ctx.ob(rule, bad is None, fn.name, 'selection among equal timestamps', fn.where(),
+           'the search never stops on an entry only known to be equal to the requested timestamp' if bad is None else
+           'the entries are not probed in index order and the search stops on the first probe that equals the requested timestamp: inside a run of equal timestamps that is an arbitrary member, and the earlier ones are never delivered',
+           ' -> '.join('B%d' % x for x in bad) if bad else None)
+
+
+INT64_MIN = -(1 << 63)
+
+
+def no_timestamp_rejection_rule(ctx, P, rule, entries=(('jls_wr_annotation', 'timestamp'), ('jls_wr_ts_anno', 'timestamp'), ('jls_twr_annotation', 'timestamp'))):
+    """no annotation is refused because of the value of its timestamp (the property quantifies over all
+    non-decreasing sequences, negative ones included).  An order check against the previous timestamp is
+    accepted when the remembered value starts at INT64_MIN."""
+    todo = []
+    for name, var in entries:
+        fn = P.fn(name)
+        if not any(p['name'] == var for p in fn.params):
+            raise AnalysisBroken('%s: no parameter `%s`' % (name, var))
+        todo.append((fn, var, 0))
+    done = set()
+    n = 0
+    while todo:
+        fn, var, depth = todo.pop()
+        if (fn.name, var) in done:
+            continue
+        done.add((fn.name, var))
+        ctx.saw(fn)
+        n += 1
+        # helpers of the same unit that receive the timestamp
+        if depth < 2:
+            for c in fn.calls():
+                g = P.functions.get(c.callee)
+                if g is None or g.file != fn.file or not g.static:
+                    continue
+                for i, a in enumerate(c.args):
+                    if strip_casts(a).get('op') == 'ref' and strip_casts(a).get('name') == var and i < len(g.params):
+                        todo.append((g, g.params[i]['name'], depth + 1))
+        failing = [r for r in fn.returns() if r.e is not None and ret_class(fn, r, frozenset()) != 'zero']
+        for b in fn.blocks.values():
+            c = strip_casts(b.cond) if b.cond is not None else None
+            if c is None or len(b.succs) < 2:
+                continue
+            if not any(nd.get('op') == 'ref' and nd.get('name') == var for nd in walk(c)):
+                continue
+            for label in ('T', 'F'):
+                # an error return that only this outcome leads to
+                rej = [r for r in failing if (b.id, label) in control_deps_transitive(fn, r.block.id) and
+                       const_of(strip_casts(r.e)) not in (None, 0)]
+                if not rej:
+                    continue
+                # the accepted form: timestamp < FIELD (T) / timestamp >= FIELD (F), FIELD starting at INT64_MIN
+                ok, why = False, 'the outcome %s of `%s` leads to an error return' % (label, show(c)[:60])
+                if c.get('op') == 'bin' and c['o'] in ('<', '>=', '>', '<='):
+                    l, r = strip_casts(c['k'][0]), strip_casts(c['k'][1])
+                    o = c['o']
+                    if r.get('name') == var:
+                        l, r = r, l
+                        o = {'<': '>', '>': '<', '<=': '>=', '>=': '<='}[o]
+                    rejects_below = (o == '<' and label == 'T') or (o == '>=' and label == 'F')
+                    if l.get('name') == var and r.get('op') == 'member' and rejects_below:
+                        field = r.get('field')
+                        inits, tracks = [], 0
+                        for g in P.all_functions():
+                            for ev in g.stores():
+                                l2, r2, o2 = ev.store_parts()
+                                if strip_casts(l2).get('op') == 'member' and strip_casts(l2).get('field') == field:
+                                    if r2 is not None and const_of(r2) is not None:
+                                        inits.append(const_of(r2))
+                                    else:
+                                        tracks += 1
+                        if inits and all(v == INT64_MIN for v in inits):
+                            ok, why = True, 'order check against %s, which starts at INT64_MIN: no timestamp of a non-decreasing sequence is refused' % field
+                        else:
+                            why = ('order check against %s, which starts at %s: every timestamp below that start is refused until the sequence reaches it (a non-decreasing sequence that begins with negative timestamps is valid)'
+                                   % (field, ('%s' % inits) if inits else "0 (the instance is zero-allocated and the field has no initial store)"))
+                ctx.ob(rule, ok, fn.name, 'rejection depending on %s' % var, b.events[-1].where() if b.events else fn.where(), why)
+    ctx.ob(rule, True, 'annotation write path', 'functions examined for timestamp-dependent rejections', P.fn(entries[0][0]).where(),
+           '%d functions (entries and their helpers receiving the timestamp)' % n)
+    ctx.floor('functions of the annotation write path', n, 3)
